@@ -769,6 +769,25 @@ fn corpus() -> Vec<(String, String)> {
       ),
     ),
     (
+      "corpus:F12 two decisions requiring each other, one sharing its identifier with a knowledge model".into(),
+      model(
+        r##"
+  <decision name="A" id="_a"><variable name="A"/><informationRequirement id="_r1"><requiredDecision href="#_b"/></informationRequirement><literalExpression><text>B</text></literalExpression></decision>
+  <decision name="B" id="_b"><variable name="B"/><informationRequirement id="_r2"><requiredDecision href="#_a"/></informationRequirement><literalExpression><text>A</text></literalExpression></decision>
+  <businessKnowledgeModel name="F" id="_a"><variable name="F"/><encapsulatedLogic><formalParameter name="x"/><literalExpression><text>x</text></literalExpression></encapsulatedLogic></businessKnowledgeModel>"##,
+      ),
+    ),
+    (
+      "corpus:F12 two decisions requiring each other, one sharing its identifier with a decision service".into(),
+      model(
+        r##"
+  <decision name="A" id="_a"><variable name="A"/><informationRequirement id="_r1"><requiredDecision href="#_b"/></informationRequirement><literalExpression><text>B</text></literalExpression></decision>
+  <decision name="B" id="_b"><variable name="B"/><informationRequirement id="_r2"><requiredDecision href="#_a"/></informationRequirement><literalExpression><text>A</text></literalExpression></decision>
+  <decision name="C" id="_c"><variable name="C"/><literalExpression><text>1</text></literalExpression></decision>
+  <decisionService name="S" id="_b"><variable name="S"/><outputDecision href="#_c"/></decisionService>"##,
+      ),
+    ),
+    (
       "corpus:F12 two item definitions of one name, the later one referring to itself".into(),
       model(
         r##"
